@@ -235,7 +235,7 @@ func TestVerif_C11_Lists(t *testing.T) {
 	r.Bounds["attribute_sets"] = "ipv4 {a1, a2, a1 with IPv6 next hop}; ipv6 {a1, a2, a1 with global+link-local}; vpnv4 {a1, a2}"
 	r.Bounds["local_path_ids"] = "1,2 (assigned by destination.Calculate: peer 1 then peer 2)"
 	r.Bounds["alphabet_letters"] = 57
-	r.Bounds["configs"] = "addpath{off,on} x extended{off,on}"
+	r.Bounds["configs"] = "addpath{off,on} x extended{off,on} for lists of length <=4; addpath{off,on} x extended off for length 5"
 	r.Bounds["symmetry"] = "prefixes of one family first appear in index order"
 	W := vr.Workers()
 	lists := map[string]int{}
@@ -243,6 +243,10 @@ func TestVerif_C11_Lists(t *testing.T) {
 		total := 0
 		c11Lists(n, func([]c11Op) { total++ })
 		lists[fmt.Sprint(n)] = total
+		cfgs := c11Cfgs
+		if n > 4 {
+			cfgs = c11Cfgs[:2] // extended message off; it only moves the limit, which lists this short never approach
+		}
 		ctxs := make([]*c11Ctx, W)
 		r.Parallel(W, func(wk int, rep *vr.Report) {
 			c := c11NewCtx(rep)
@@ -254,7 +258,7 @@ func TestVerif_C11_Lists(t *testing.T) {
 					return
 				}
 				c.idx = int64(i) * 4
-				w.run(c, ops, c11Cfgs)
+				w.run(c, ops, cfgs)
 				if c.WantSample() && i%(total/5+1) == wk {
 					c.Sample(c11ListCase{Part: "lists", Cfg: c11Cfgs[i%4], Ops: append([]c11Op{}, ops...), Text: c11ListText(ops)})
 				}
